@@ -484,6 +484,53 @@ def run(ctx) -> None:
            "the component dictionary refuses a second component with the same identifier" if dup else
            "refresh_component_dictionary no longer raises for a duplicate identifier", construct="refresh_component_dictionary raises on duplicates")
 
+    # ... and the constructor hands it every component it was given: the list it stores is an element-by-element image of the given list
+    # (seed C11-13: entries collapsed by id() - a definition listed twice through a YAML alias is one component afterwards, so the
+    # duplicate never reaches refresh_component_dictionary)
+    from vlib import flow as _flow
+    init = fl.func("FlowIRConcrete.__init__")
+    ctx.analysed(init)
+    icfg = CFG(init)
+    stores = [n for n in icfg.nodes if n.kind == "stmt" and isinstance(n.ast, ast.Assign) and any(
+        isinstance(t, ast.Subscript) and (dotted(t.slice) or "").endswith("FieldComponents") for t in n.ast.targets)]
+    ctx.require(bool(stores), "anchor missing: FlowIRConcrete.__init__ stores the processed components")
+
+    def image_of(e: ast.AST, at_id: int, depth: int = 0):
+        """None when e is an element-by-element image of the given list at node at_id; else the offending expression"""
+        if depth > 6:
+            return e
+        if isinstance(e, ast.Call) and call_name(e) in ("list", "tuple", "deep_copy", "copy.deepcopy", "deepcopy") and len(e.args) == 1 and not e.keywords:
+            return image_of(e.args[0], at_id, depth + 1)
+        if isinstance(e, ast.Call) and call_name(e) == "map" and len(e.args) == 2:
+            return image_of(e.args[1], at_id, depth + 1)
+        if isinstance(e, ast.ListComp) and len(e.generators) == 1 and not e.generators[0].ifs:
+            return image_of(e.generators[0].iter, at_id, depth + 1)
+        if isinstance(e, ast.Call) and last_attr(e) == "get" and e.args and (dotted(e.args[0]) or "").endswith("FieldComponents"):
+            return None
+        if isinstance(e, ast.Subscript) and (dotted(e.slice) or "").endswith("FieldComponents"):
+            return None
+        if isinstance(e, ast.Name):
+            defs = _flow.reaching_defs(icfg, e.id).get(at_id, frozenset())
+            if not defs:
+                return e
+            for d in defs:
+                v = _flow.def_value(icfg, d, e.id) if d >= 0 else None
+                if v is None:
+                    return e
+                bad_ = image_of(v, d, depth + 1)
+                if bad_ is not None:
+                    return bad_
+            return None
+        return e
+    for sn in stores:
+        bad = image_of(sn.ast.value, sn.id)
+        ctx.ob("C11.R8-duplicate-detector-sees-every-component", bad if bad is not None else sn.ast, bad is None,
+               "the constructor stores one processed component per component it was given" if bad is None else
+               "the list of components the constructor stores is built through %s, not element by element from the given list: entries can be "
+               "dropped or merged before refresh_component_dictionary looks for duplicates - a definition listed twice (e.g. through a YAML "
+               "alias) becomes one component and the workflow loads although two components share an identifier" % short(bad, 70),
+               construct="FlowIRConcrete.__init__: stored components are an element-wise image of the given ones")
+
     # ---------------- R7 -------------------------------------------------------------------------------
     from checks.c04 import novel_keys_copied
     oo = fl.func("FlowIR.override_object")
